@@ -23,11 +23,15 @@ type fragReader struct {
 	split       int
 	eofWithData bool
 	failAt      int // -1: never; otherwise Read fails once pos reaches failAt
+	failErr     error // the error of the failing Read (errVerifRead when nil)
 	closed      *int
 }
 
 func (r *fragReader) Read(p []byte) (int, error) {
 	if r.failAt >= 0 && r.pos >= r.failAt {
+		if r.failErr != nil {
+			return 0, r.failErr
+		}
 		return 0, errVerifRead
 	}
 	if r.pos >= len(r.data) {
@@ -153,6 +157,18 @@ func verifC03Stream(R, maxMsg int, withSplit bool, faults bool) {
 		}
 	}
 	rd := &fragReader{data: stream[:cut], failAt: failAt}
+	// the transport reports a truncated response body as io.ErrUnexpectedEOF
+	transportCut := failAt >= 0 && vsymBool("readErrIsUnexpectedEOF")
+	if transportCut {
+		rd.failErr = io.ErrUnexpectedEOF
+		// inside a frame header this is indistinguishable from a cut stream,
+		// which ends cleanly by the statement: judged at frame boundaries and inside bodies only
+		for k := 0; k < R; k++ {
+			if failAt > offs[k] && failAt < offs[k]+headerLen {
+				vsymAssume(false)
+			}
+		}
+	}
 	rd.mode = vsymChoice("frag", 2)
 	if withSplit {
 		rd.mode = 2
@@ -216,6 +232,10 @@ done:
 	for k, r := range kept {
 		f := frames[want[k]]
 		vsymAssert(r.Body == f.msg && int64(r.Timestamp) == verifWantNs(f.tsIdx), "a decoded record is not altered by decoding the following ones")
+	}
+	if wantErr && transportCut && it.Err() == nil {
+		vsymFinding("F30", true, "a Read error io.ErrUnexpectedEOF from the log reader (what the HTTP transport returns for a truncated response body) at a frame boundary ends the stream cleanly instead of being reported: the header read treats it like its own short-read result")
+		return
 	}
 	if wantErr {
 		vsymAssert(it.Err() != nil, "a cut inside a frame body, a daemon error frame, a bad timestamp or a read error is reported")
